@@ -2,6 +2,7 @@ package main
 
 import (
 	"context"
+	"strings"
 	"encoding/json"
 	"fmt"
 	"math/rand"
@@ -12,6 +13,7 @@ import (
 	idp "berty.tech/go-ipfs-log/identityprovider"
 	"berty.tech/go-orbit-db/iface"
 	cid "github.com/ipfs/go-cid"
+	"github.com/multiformats/go-multibase"
 
 	"verifharness/fw"
 	"verifharness/sim"
@@ -21,7 +23,7 @@ func init() {
 	fw.Register(&fw.Property{
 		ID:    "C04",
 		Level: "exploration",
-		Rule: "ENUMERATED matrix: a valid entry of an honest two-writer log at 3 positions (directly on the heads, one and two links above) x every single-field mutation of its wire form (payload, clock time, clock id, next drop/add/replace, refs, v, key, sig, identity id/publicKey/signatures/type, log id, claimed hash, plus a genuine entry of another database) x {claimed hash kept, hash recomputed} x route {announced head, head on the direct channel, head via Sync, ancestor behind a colluding writer's head} ; thorough adds PRNG variants (random bytes / ints) per field and 3 seeds. A classifier built from the dependency's primitives (IO.Write for the content hash, Entry.Verify for the signature) decides per mutated entry which clause applies; expectations are derived from the classification only. " +
+		Rule: "ENUMERATED matrix: a valid entry of an honest two-writer log at 3 positions (directly on the heads, one and two links above) x every single-field mutation of its wire form (payload, clock time, clock id, next drop/add/replace, refs, v, key, sig, identity id/publicKey/signatures/type, log id (other database, garbage, and alternative spellings of the replica's own address: no prefix, trailing / double slash, other multibase), claimed hash, plus a genuine entry of another database) x {claimed hash kept, hash recomputed} x route {announced head, head on the direct channel, head via Sync, ancestor behind a colluding writer's head} ; thorough adds PRNG variants (random bytes / ints) per field and 3 seeds. A classifier built from the dependency's primitives (IO.Write for the content hash, Entry.Verify for the signature) decides per mutated entry which clause applies; expectations are derived from the classification only. " +
 			"distinct = cell (mutation, hash mode, route, position, store type); non-trivial = the classifier found at least one clause violated, the entry was delivered and an honest marker write through the same path took effect afterwards",
 		Assumptions: []string{"hash, CBOR and signature primitives of go-ipfs-log are the trusted base of the classifier", "content addressing is honoured by the block exchange: an adversary cannot serve other bytes under a CID"},
 		Cases:       c04Cases,
@@ -123,6 +125,24 @@ var c04Mutations = []mutation{
 			m.LogID = x.otherDB
 		} else {
 			m.LogID = m.LogID + "x"
+		}
+	}},
+	// alternative spellings of the replica's own address: equal after lenient parsing, different as strings
+	{"logid.no-prefix", func(m *entry.Entry, x *c04Ctx, r *rand.Rand, v int) { m.LogID = strings.TrimPrefix(m.LogID, "/orbitdb/") }},
+	{"logid.trailing-slash", func(m *entry.Entry, x *c04Ctx, r *rand.Rand, v int) { m.LogID = m.LogID + "/" }},
+	{"logid.double-slash", func(m *entry.Entry, x *c04Ctx, r *rand.Rand, v int) {
+		m.LogID = strings.Replace(m.LogID, "/orbitdb/", "/orbitdb//", 1)
+	}},
+	{"logid.multibase", func(m *entry.Entry, x *c04Ctx, r *rand.Rand, v int) {
+		parts := strings.SplitN(strings.TrimPrefix(m.LogID, "/orbitdb/"), "/", 2)
+		if c, err := cid.Decode(parts[0]); err == nil && len(parts) == 2 {
+			alt := strings.ToUpper(c.String()) // upper-case base32 is another valid multibase spelling
+			if v%2 == 1 {
+				if s, err := c.StringOfBase(multibase.Base58BTC); err == nil {
+					alt = s
+				}
+			}
+			m.LogID = "/orbitdb/" + alt + "/" + parts[1]
 		}
 	}},
 	{"claimed-hash", func(m *entry.Entry, x *c04Ctx, r *rand.Rand, v int) { m.Hash = x.other }},
